@@ -559,6 +559,11 @@ def string_arms(ck, rule):
                 seen.add(("vd", arm))
                 ck.bad(rule, fm, "raw integer codes parsed from strings keep an integer value type", "normaliser:%s raw codes typed float" % arm, pf.ret_stmt,
                        "set_val casts the codes to binary64 before storing: codes with more than 53 significant bits (n_word 54..63) are altered")
+        elif raw is None:
+            if ("split", arm) not in seen:
+                seen.add(("split", arm))
+                ck.bad(rule, fm, "each string arm distinguishes raw codes from values before parsing", "%s arm calls str2num(n_frac=%s) without testing raw" % (arm, src(nfa) if nfa is not None else None), ce.stmt,
+                       "raw codes are parsed as values: divided by 2^n_frac and truncated (the two string arms disagree)")
         elif raw is False:
             n_val += 1
             ok2 = dotted(nfa) == "self.n_frac"
